@@ -10,6 +10,8 @@ var namePool = []string{"foo", "bar", "rand", "d", "fmt", "x", "y1", "T", "pkg",
 var prefixPool = []string{"pkg", "p", "gen", "x1", "P_"}
 
 // FileSetup draws constructor + settings + hints + anon for file f over the given paths.
+// The hints (ImportName / ImportAlias / ImportNames) and the 0..2 Anon operations come in a
+// random relative order; an Anon of a path followed by a hint for the same path is frequent.
 type SetupOpts struct {
 	Paths     []string
 	NoDot     bool
@@ -48,18 +50,20 @@ func FileSetup(r *rand.Rand, f int, o SetupOpts) (h hist.History, local string) 
 	if r.Intn(3) == 0 {
 		h = append(h, hist.Op{Kind: "prefix", F: f, A: pick(r, prefixPool)})
 	}
+	// hints (in the order drawn; a later hint for a path replaces an earlier one)
+	var hints hist.History
 	nh := r.Intn(4)
 	for i := 0; i < nh && len(o.Paths) > 0; i++ {
 		p := pick(r, o.Paths)
 		switch r.Intn(5) {
 		case 0, 1:
-			h = append(h, hist.Op{Kind: "importname", F: f, A: p, B: pick(r, names)})
+			hints = append(hints, hist.Op{Kind: "importname", F: f, A: p, B: pick(r, names)})
 		case 2, 3:
 			a := pick(r, names)
 			if !o.NoDot && r.Intn(4) == 0 {
 				a = "."
 			}
-			h = append(h, hist.Op{Kind: "importalias", F: f, A: p, B: a})
+			hints = append(hints, hist.Op{Kind: "importalias", F: f, A: p, B: a})
 		default:
 			var pairs [][2]string
 			seen := map[string]bool{}
@@ -70,21 +74,80 @@ func FileSetup(r *rand.Rand, f int, o SetupOpts) (h hist.History, local string) 
 					pairs = append(pairs, [2]string{q, pick(r, names)})
 				}
 			}
-			h = append(h, hist.Op{Kind: "importnames", F: f, Pairs: pairs})
+			hints = append(hints, hist.Op{Kind: "importnames", F: f, Pairs: pairs})
 		}
 	}
 	for i := 0; i < o.ManyHints; i++ {
-		h = append(h, hist.Op{Kind: "importname", F: f, A: "unused.host/p" + string(rune('a'+i%26)) + string(rune('0'+i/26%10)), B: pick(r, names)})
+		hints = append(hints, hist.Op{Kind: "importname", F: f, A: "unused.host/p" + string(rune('a'+i%26)) + string(rune('0'+i/26%10)), B: pick(r, names)})
 	}
-	if r.Intn(4) == 0 {
+	// anonymous imports: none (1/2), one op (3/10) or two ops (2/10) of 1..2 paths each; a
+	// path is drawn half of the time from o.Paths (the paths the hints name and the body
+	// references), otherwise from PathPool
+	var anons hist.History
+	na := 0
+	switch r.Intn(10) {
+	case 0, 1, 2:
+		na = 1
+	case 3, 4:
+		na = 2
+	}
+	for i := 0; i < na; i++ {
 		var ps []string
 		for j := 0; j < 1+r.Intn(2); j++ {
-			if p := pick(r, PathPool); p != local { // importing the file's own package is not a meaningful input
+			p := pick(r, PathPool)
+			if len(o.Paths) > 0 && r.Intn(2) == 0 {
+				p = pick(r, o.Paths)
+			}
+			if p != local { // importing the file's own package is not a meaningful input
 				ps = append(ps, p)
 			}
 		}
-		h = append(h, hist.Op{Kind: "anon", F: f, Strs: ps})
+		anons = append(anons, hist.Op{Kind: "anon", F: f, Strs: ps})
 	}
+	// the relative order of Anon and the hints is random: every anon op is inserted at a
+	// random position of the hint sequence (Anon before, between and after the hints)
+	seq := hints
+	for _, a := range anons {
+		k := r.Intn(len(seq) + 1)
+		seq = append(seq[:k:k], append(hist.History{a}, seq[k:]...)...)
+	}
+	// Anon(p) FOLLOWED by a hint for the same p: provoked in half of the cases that have an
+	// anonymous import (a hint must never turn the anonymous import into something else
+	// unless the path is referenced)
+	if len(anons) > 0 && r.Intn(2) == 0 {
+		type anonAt struct {
+			k int
+			p string
+		}
+		var cand []anonAt
+		for k, op := range seq {
+			if op.Kind == "anon" {
+				for _, p := range op.Strs {
+					cand = append(cand, anonAt{k, p})
+				}
+			}
+		}
+		if len(cand) > 0 {
+			c := cand[r.Intn(len(cand))]
+			k, p := c.k, c.p
+			var op hist.Op
+			switch r.Intn(4) {
+			case 0:
+				op = hist.Op{Kind: "importname", F: f, A: p, B: pick(r, names)}
+			case 1:
+				op = hist.Op{Kind: "importnames", F: f, Pairs: [][2]string{{p, pick(r, names)}}}
+			default:
+				a := pick(r, names)
+				if !o.NoDot && r.Intn(3) == 0 {
+					a = "."
+				}
+				op = hist.Op{Kind: "importalias", F: f, A: p, B: a}
+			}
+			at := k + 1 + r.Intn(len(seq)-k)
+			seq = append(seq[:at:at], append(hist.History{op}, seq[at:]...)...)
+		}
+	}
+	h = append(h, seq...)
 	if !o.NoCgo && r.Intn(12) == 0 {
 		h = append(h, hist.Op{Kind: "cgo", F: f, A: pick(r, []string{"#include <stdio.h>", "#include <a.h>\n#include <b.h>", "// raw form"})})
 	}
